@@ -14,9 +14,12 @@ from extract import ExtractionError
 LEXER = "prqlc/prqlc-parser/src/lexer/mod.rs"
 ERRMSG = "prqlc/prqlc/src/error_message.rs"
 PARSER = "prqlc/prqlc-parser/src/parser/mod.rs"
+SPAN_RS = "prqlc/prqlc-parser/src/span.rs"
+EXPR_RS = "prqlc/prqlc-parser/src/parser/expr.rs"
+PRQLC_PARSER = "prqlc/prqlc/src/parser.rs"
 
-LABELS = ["SU3a", "SU3b", "SU3c", "SU3d", "SU1a", "SU1b", "SU1c", "SU2m", "SU2"]
-FUNCTIONS = ["convert_lexer_error", "compose_location", "map_span_slice"]
+LABELS = ["SU3a", "SU3b", "SU3c", "SU3d", "SU1a", "SU1b", "SU1c", "SU2m", "SU2", "IS0", "IS1", "IS2", "PS1"]
+FUNCTIONS = ["convert_lexer_error", "compose_location", "map_span_slice", "span_add", "interp_base", "lexed_input"]
 RLIMIT = 60
 
 ASSUMED = [
@@ -32,9 +35,18 @@ ASSUMED = [
              "(read in ariadne 0.5.1 source.rs)", "keys": ["struct Source", "spec fn offset_line", "fn get_offset_line", "struct Line"]},
     {"what": "token spans handed to the parser are BYTE ranges of the source (comment in lexer/mod.rs: 'SimpleSpan uses BYTE offsets'); semantic_tokens.get(i) is "
              "Vec::get", "keys": ["fn tok_get", "struct SimpleSpan", "fn start", "fn end", "fn usize_saturating_sub"]},
+    {"what": "String::len of the content of an interpolation token is the uninterpreted content_len(), at most the number of source characters between the quotes (escape "
+             "sequences shrink the content)", "keys": ["fn string_byte_len", "spec fn content_len"]},
+    {"what": "prqlc_parser::lexer::lex_source_recovery is external: lexed_text() / lexed_id() of its result are the text and the source id it was given",
+     "keys": ["fn lex_source_recovery", "spec fn lexed_text", "spec fn lexed_id", "struct LexOut"]},
     common_std.STR_PREDS_ASSUMPTION,
 ]
 TRUSTED = [
+    "oracle (C13, PS1): every span is an offset into the text that was lexed, and ErrorMessages::composed resolves it against the text of the SourceTree: the text handed "
+    "to the lexer by parse_source must be the source itself, character for character, under the source id of that file",
+    "oracle (C13, title: errors point at the offending text): the spans of the items inside an s- / f-string are relative to the first character of its content, which stands "
+    "behind the prefix letter and the opening quotes: the base handed to the interpolation parser starts at token start + 1 + number of opening quotes (IS1: one quote; IS2: "
+    "three or more) and stays inside the token (IS0)",
     "oracle (C13): a span lies within the source, on character boundaries, start <= end, and location is the line/column of exactly that span",
     "the slices drop the rest of parse_lr_to_pr; ErrorMessages::composed (asserts location.is_some()) is not under contract",
 ]
@@ -204,7 +216,58 @@ proof fn parser_span_fits_characters(source: Seq<char>, off: nat)
     broadcast use axiom_len;
 }
 """
-    body = cle.text + "\n" + LOC_SHIM + cl_impl + TOK_SHIM + ms.text + su2
+    # ---- s- / f-strings: where the spans of the items inside the string are counted from
+    sa_ = X.fn(SPAN_RS, "add", after="impl Add<usize> for Span")
+    sa_.rewrite("R3", "fn add(self, rhs: usize) -> Span", "pub fn span_add(self_: Span, rhs: usize) -> (r: Span)", why="method of `impl Add<usize> for Span` as a free function (Verus: no contract on trait impls)")
+    sa_.text = re.sub(r"\bself\b", "self_", sa_.text).replace("Self {", "Span {")
+    sa_.name = "span_add"
+    sa_.contract("""
+        requires self_.end + rhs <= usize::MAX, self_.start <= self_.end,
+        ensures r.start == self_.start + rhs, r.end == self_.end + rhs, r.source_id == self_.source_id,
+    """)
+    ip = X.fn(EXPR_RS, "interpolation")
+    mi = re.search(r"\.validate\(\|\(finish, string\), extra, emit\| \{(.*?)match interpolation::parse\(string, (.*?)\) \{", ip.text, re.S)
+    if not mi:
+        raise ExtractionError("interpolation(): `.validate(|(finish, string), extra, emit| { .. match interpolation::parse(string, BASE) {` not found")
+    ip.name = "interp_base"
+    ip.text = mi.group(1).strip() + "\n    " + mi.group(2).strip()
+    ip.rewrites.append({"rule": "slice", "what": "the statements in front of `match interpolation::parse(string, BASE)` and the expression BASE (closure given to .validate in interpolation()) wrapped as "
+                        "fn interp_base(span0, string) -> BASE"})
+    ip.rewrite_re("R5", r"\bextra\.span\(\)", "span0", count=None, why="the span of the interpolation token: a parameter of the slice")
+    ip.rewrite_re("R5", r"\bstring\.len\(\)", "string_byte_len(&string)", count=None, why="String::len")
+    ip.rewrite_re("R5", r"\bspan \+ (\([^()]*\)|\w+)", r"span_add(span, \1)", count=None, why="`Span + usize` is the method above")
+    ip.text = ("pub fn interp_base(span0: Span, string: String, Ghost(q): Ghost<nat>, Ghost(srclen): Ghost<nat>) -> (r: Span)\n"
+               "    requires\n"
+               "        // the token: prefix letter, q opening quotes, srclen source characters of content, q closing quotes; the content has at most srclen characters\n"
+               "        q >= 1, span0.start + 1 + 2 * q + srclen == span0.end, content_len(string) <= srclen, span0.end + 2 * q + srclen <= usize::MAX,\n"
+               "    ensures\n"
+               "        // the base lies inside the token, and the whole content fits behind it\n"
+               "        span0.start < r.start && r.start + content_len(string) <= span0.end, // @IS0\n"
+               "        // an ordinary string: the content starts behind `f\"`\n"
+               "        q == 1 ==> r.start == span0.start + 2, // @IS1\n"
+               "        // a multi-quoted string: behind the prefix letter and ALL opening quotes\n"
+               "        q > 1 ==> r.start == span0.start + 1 + q, // @IS2\n"
+               "{\n    " + ip.text + "\n}\n")
+    interp_shim = ("pub uninterp spec fn content_len(s: String) -> nat;\n"
+                   "#[verifier::external_body] pub fn string_byte_len(s: &String) -> (r: usize) ensures r == content_len(*s), { unimplemented!() }\n")
+    # ---- prqlc::parser::parse_source: the text that is lexed
+    ps = X.fn(PRQLC_PARSER, "parse_source")
+    mp = re.search(r"^(.*?)let \(tokens, mut errors\) = (prqlc_parser::lexer::lex_source_recovery\([^;]*\));", ps.text.split("{", 1)[1], re.S)
+    if not mp:
+        raise ExtractionError("parse_source: `let (tokens, mut errors) = prqlc_parser::lexer::lex_source_recovery(..);` not found")
+    ps.name = "lexed_input"
+    ps.text = mp.group(1).strip() + "\n    " + mp.group(2)
+    ps.rewrites.append({"rule": "slice", "what": "the statements of parse_source up to and including the call of lex_source_recovery wrapped as fn lexed_input(source, source_id) -> the lexer's result"})
+    ps.rewrite_re("R5", r"\bprqlc_parser::lexer::lex_source_recovery\(", "lex_source_recovery(", count=None, why="external: the lexer")
+    ps.shim_str_predicates()
+    ps.text = ("pub fn lexed_input(source: &str, source_id: u16) -> (r: LexOut)\n"
+               "    ensures\n"
+               "        // C13: the spans index the very text the messages are rendered against\n"
+               "        lexed_text(r) == source@ && lexed_id(r) == source_id, // @PS1\n"
+               "{\n    " + ps.text + "\n}\n")
+    lex_shim = ("#[verifier::external_body] pub struct LexOut { _p: u8 }\npub uninterp spec fn lexed_text(o: LexOut) -> Seq<char>;\npub uninterp spec fn lexed_id(o: LexOut) -> u16;\n"
+                "#[verifier::external_body] pub fn lex_source_recovery(source: &str, source_id: u16) -> (r: LexOut) ensures lexed_text(r) == source@, lexed_id(r) == source_id, { unimplemented!() }\n")
+    body = cle.text + "\n" + LOC_SHIM + cl_impl + TOK_SHIM + ms.text + su2 + interp_shim + sa_.text + "\n" + ip.text + lex_shim + ps.text
     return PRELUDE + body + "\n} // verus!\nfn main() {}\n"
 
 
@@ -216,9 +279,35 @@ def _try(src):
             "replay_kind": "compile"}
 
 
+# (program, the `line:column` the error must be reported at): an unknown name inside an f-string whose escapes stand BEHIND the item (the unchanged tree locates those correctly)
+POSITION_CASES = [
+    # a CRLF source: offsets count the carriage returns
+    ('from [{a = 1}]\r\nselect {a}\r\nderive {y = zz}\r\n', "3:13"),
+    ('from [{a = 1}]\r\nselect {a}\r\n\r\n\r\n  zz\r\n', "5:3"),
+    ('from [{a = 1}]\nselect {x = f"{zz}"}\n', "2:16"),
+    ('from [{a = 1}]\nselect {x = f"{zz}:\\t\\"q\\"\\t\\u{41}"}\n', "2:16"),
+    ('from [{a = 1}]\nderive {label = f"{a}-{zz}\\t\\t"}\n', "2:24"),
+]
+
+
+def _try_position(src, pos):
+    import replaylib
+    ok, out = replaylib.compile_prql(src)
+    m = re.search(r"\[ :(\d+:\d+) \]", out)
+    got = m.group(1) if m else None
+    return {"input": src, "expected": "error reported at %s" % pos, "observed": out[:300] if got is None else "reported at %s" % got, "failing": ("PANIC" in out) or (got is not None and got != pos),
+            "replay_kind": "position", "position": pos}
+
+
 def replay(failure):
     """SU2: a syntax error after non-ASCII text; the parser's byte span exceeds the character count of the source.
-    SU3*: a LEXER error after non-ASCII text (the span must be in characters)."""
+    SU3*: a LEXER error after non-ASCII text (the span must be in characters).  IS*: where an error inside an f-string is reported."""
+    if ".IS" in failure["obligation"] or failure["obligation"].endswith(("span_add.safety", "interp_base.safety")):
+        for src, pos in POSITION_CASES:
+            r = _try_position(src, pos)
+            if r["failing"]:
+                return r
+        return {"failing": False}
     if not failure["obligation"].endswith("SU2"):
         for src in ['from t\nfilter name == "héllo wörld"\nselect x = ^', 'from t # ééééééééé\nselect x = ^ + 1\nsort x', "from t\nselect x = '日本語' + ^"]:
             r = _try(src)
@@ -233,10 +322,13 @@ def replay(failure):
 
 
 def rerun(doc):
+    if doc.get("replay_kind") == "position":
+        return _try_position(doc["input"], doc["position"])
     return _try(doc["input"])
 
 
-SWEEP_DOC = "syntax errors after ASCII and non-ASCII text compiled by the real prqlc: a list of located errors is expected, never a panic"
+SWEEP_DOC = ("syntax errors after ASCII and non-ASCII text compiled by the real prqlc: a list of located errors is expected, never a panic; unknown names in CRLF sources and inside "
+             "f-strings with escapes behind the item: the reported line:column must be that of the name")
 
 
 def sweep():
@@ -244,5 +336,9 @@ def sweep():
     for src in ["from a\nselect {", "from a # cafe\nselect {a,", "from a # café 日本語テーブル\nselect {", "let x = \"éééééééé\"\nfrom t | select {a,", "from t | derive x = 'é' + | take 1"]:
         r = _try(src)
         r["obligation"] = "span_units.SU2"
+        out.append(r)
+    for src, pos in POSITION_CASES:
+        r = _try_position(src, pos)
+        r["obligation"] = "span_units.PS1" if "\r" in src else "span_units.IS1"
         out.append(r)
     return out
